@@ -112,6 +112,13 @@ class OpenCtx(BaseCtx):
             if self.cur is not None and not self.cur.get("ka_wait") and self.cur.get("H") and rng.chance(0.7):
                 self.cur["ka_wait"] = True          # (generation only: let the keepalive timer fire once)
                 return ["fire", 0]
+            if self.cur is not None and self.cur.get("H") and self.cur.get("accepted") and (
+                    self.cur.get("silent") or rng.chance(0.3)):
+                # the peer goes silent: the hold timer must expire exactly H = min(configured, proposed)
+                # seconds after the last message it sent
+                self.cur["silent"] = self.cur.get("silent", 0) + 1
+                if self.cur["silent"] <= 10 and w.reactor.due():
+                    return ["fire", rng.randrange(len(w.reactor.due()))]
             self.stage = "wait_connect"
             self.sessions_left -= 1
             how = rng.pick(["close", "reset", "notif", "cease"])
@@ -212,9 +219,25 @@ class OpenCtx(BaseCtx):
         for t in toks:
             if t[0] == "tx" and t[2] == "OPEN":
                 self.on_agent_open(t[1])
+        # ---- hold timer expiry reflects min(configured, proposed)
+        for t in toks:
+            if t[0] == "tx" and isinstance(t[2], tuple) and t[2][1] == 4 and self.cur is not None \
+                    and t[1] == self.cur.get("cid") and self.cur.get("accepted"):
+                H = self.cur["H"]
+                due = self.cur.get("t_last_rx", self.cur["t_confirm"]) + H
+                self.stats["hold_expiries_checked"] += 1
+                if H == 0 or abs(now - due) > EPS:
+                    raise Violation("C05", "hold-min", "hold-expiry-not-at-min(configured,proposed)",
+                                    "configured hold %s, peer proposed %s -> session hold time %s; Hold Timer Expired sent %.3f s "
+                                    "after the peer's last message (history of peer OPENs: %s)"
+                                    % (cfg["hold_time"], self.cur["peer_hold"], H,
+                                       now - self.cur.get("t_last_rx", self.cur["t_confirm"]), self.history()))
         # ---- peer frames delivered by this op
         for e in w.log[pos:]:
             if e[2] == "rx":
+                if self.cur is not None and self.cur.get("accepted") and e[3] == self.cur.get("cid"):
+                    if any(f.type in (rp.KEEPALIVE, rp.UPDATE) and not f.error for f in rp.deframe(bytes.fromhex(e[4]))[0]):
+                        self.cur["t_last_rx"] = now
                 for f in rp.deframe(bytes.fromhex(e[4]))[0]:
                     if f.error:
                         continue
@@ -230,9 +253,9 @@ class OpenCtx(BaseCtx):
             self.cur["ka_done"] = True
             self.stats["keepalive_interval_checks"] += 1
             H = self.cur["H"]
-            if abs(now - (self.cur["t_confirm"] + H / 3.0)) > EPS:
-                raise Violation("C05", "hold-min", "keepalive-not-at-min-hold-third",
-                                "configured hold %s, peer proposed %s -> H=%s; first periodic KEEPALIVE at +%.3f s, expected +%.3f"
+            if now - self.cur["t_confirm"] > H / 3.0 + EPS:
+                raise Violation("C05", "hold-min", "keepalive-later-than-min-hold-third",
+                                "configured hold %s, peer proposed %s -> H=%s; first periodic KEEPALIVE at +%.3f s, due by +%.3f"
                                 % (cfg["hold_time"], self.cur["peer_hold"], H, now - self.cur["t_confirm"], H / 3.0))
 
     def on_agent_open(self, cid):
@@ -370,7 +393,7 @@ class OpenProfile(BaseProfile):
             "both OPENs of this session carried capability 65; non-trivial = the agent sent an OPEN; distinct = distinct "
             "(op, outputs) sequence")
     probes = ["gen:sessions_ended_in_openconfirm", "gen:open_with_inconsistent_as_field", "later_sessions", "peer_open_rejectable", "peer_open_acceptable", "updates_checked",
-              "as4_advertised_by_one_side_only", "keepalive_interval_checks"]
+              "as4_advertised_by_one_side_only", "keepalive_interval_checks", "hold_expiries_checked"]
 
     def gen_config(self, rng, idx, tier):
         cfg = dict(base.DEFAULT_CFG)
